@@ -28,7 +28,7 @@ func propC06(c *Ctx) {
 	fStop := w.Field("shovel", "Task", "stop")
 	fStart := w.Field("shovel", "Task", "start")
 	fBatch := w.Field("shovel", "Task", "batchSize")
-	loads, lats := callsToFn(conv, m.load), callsToFn(conv, m.latest)
+	loads, lats := m.calls(m.load), m.calls(m.latest)
 	if len(loads) != 1 || len(lats) != 1 {
 		c.Violation("R6.1", "Converge/calls", conv.Pos(), "expected one latest and one load call")
 		return
@@ -70,18 +70,18 @@ func propC06(c *Ctx) {
 		}
 		walk(limit, 0)
 	}
-	ub := &ubound{fn: conv}
+	ub := &ubound{fn: conv, reg: m.reg}
 	okMin := span != nil &&
 		ub.Bounded(limit, func(v ssa.Value) bool { return isStopLoad(v, fBatch) }) &&
 		ub.Bounded(limit, func(v ssa.Value) bool { return v == span })
 	c.Check("R6.1", "Converge/limit=min(target-position,batchSize)", ld.Pos(), okMin, "the limit argument of load is bounded by the batch size and by target - position")
 	if target != nil {
 		// stop > 0 ⇒ target ≤ stop (vacuous when stop == 0), and target ≤ head always
-		_, stopZero := cmpEdges(conv, func(b *ssa.BinOp) bool {
+		_, stopZero := m.cmpEdges(func(b *ssa.BinOp) bool {
 			n, ok := constInt(b.Y)
 			return b.Op == token.GTR && isStopLoad(b.X, fStop) && ok && n == 0
 		})
-		ubStop := &ubound{fn: conv, vac: stopZero}
+		ubStop := &ubound{fn: conv, vac: stopZero, reg: m.reg}
 		clipOK := ubStop.Bounded(target, func(v ssa.Value) bool { return isStopLoad(v, fStop) })
 		detail := "an unclipped target reaches the step size although stop > 0 and target > stop"
 		if clipOK {
@@ -89,14 +89,9 @@ func propC06(c *Ctx) {
 		}
 		c.Check("R6.1", "Converge/target-clipped-to-stop", ld.Pos(), clipOK, detail)
 		// the target never exceeds the head the source reported
-		var head ssa.Value
-		for _, ci := range callsIn(conv) {
-			if call, ok := ci.(*ssa.Call); ok && call.Common().IsInvoke() && call.Common().Method.Name() == "Latest" {
-				head = extractOf(call, 0)
-			}
-		}
+		head := m.headNum()
 		if head != nil {
-			c.Check("R6.1", "Converge/target-bounded-by-head", ld.Pos(), (&ubound{fn: conv}).Bounded(target, func(v ssa.Value) bool { return v == head }),
+			c.Check("R6.1", "Converge/target-bounded-by-head", ld.Pos(), (&ubound{fn: conv, reg: m.reg}).Bounded(target, func(v ssa.Value) bool { return v == head }),
 				"the target of a step never exceeds the head reported by the source (a stop beyond the head must not become the target)")
 		}
 	}
@@ -110,11 +105,11 @@ func propC06(c *Ctx) {
 
 	// ---- R6.2 ---------------------------------------------------------
 	c.Rule("R6.2", "`stop > 0 && position >= stop → return ErrDone` is passed before every source call and SQL-writing call of the iteration", 4)
-	_, stopZero := cmpEdges(conv, func(b *ssa.BinOp) bool {
+	_, stopZero := m.cmpEdges(func(b *ssa.BinOp) bool {
 		n, ok := constInt(b.Y)
 		return b.Op == token.GTR && isStopLoad(b.X, fStop) && ok && n == 0
 	})
-	done, notDone := cmpEdges(conv, func(b *ssa.BinOp) bool {
+	done, notDone := m.cmpEdges(func(b *ssa.BinOp) bool {
 		return b.Op == token.GEQ && b.X == localNum && isStopLoad(b.Y, fStop)
 	})
 	errDone := w.Global("shovel", "ErrDone")
@@ -132,7 +127,7 @@ func propC06(c *Ctx) {
 	sites := sqlSites(w)
 	writers := m.writers(sites)
 	n := 0
-	for _, ci := range callsIn(conv) {
+	for _, ci := range m.allCalls() {
 		kind := ""
 		cc := ci.Common()
 		if cc.IsInvoke() && repoNamedIs(cc.Value.Type(), "shovel", "Source") && cc.Method.Name() != "NextURL" {
@@ -157,7 +152,7 @@ func propC06(c *Ctx) {
 		}
 		n++
 		r, _ := reach(siteOf(lat), isInstr(ci), newCuts().addEdges(pass))
-		c.Check("R6.2", fmt.Sprintf("Converge/%s#%d", shortCallee(ci), callOrdinal(ci)), instrPos(ci), !r && dominatesInstr(lat, ci), kind+" happens only after the completion test was passed with `not done`")
+		c.Check("R6.2", fmt.Sprintf("Converge/%s#%d", shortCallee(ci), callOrdinal(ci)), instrPos(ci), !r && m.dom(lat, ci), kind+" happens only after the completion test was passed with `not done`")
 	}
 
 	// ---- R6.3 ---------------------------------------------------------
